@@ -662,3 +662,133 @@ Qed.
 
 End WithR.
 End Order.
+
+(* ================================================================ top-level statements *)
+Definition precedes (o : list N) (a b : N) : Prop := exists l1 l2, o = l1 ++ b :: l2 /\ In a l1.
+
+Lemma NoDup_map_filter (f : proc -> bool) l : NoDup (keys l) -> NoDup (keys (filter f l)).
+Proof.
+  induction l as [|a r IH]; cbn; intros H; [constructor|]. inversion H; subst.
+  destruct (f a); cbn; auto. constructor; auto. intros Hi. apply H2.
+  apply in_map_iff in Hi. destruct Hi as [q [Hq1 Hq2]]. apply filter_In in Hq2.
+  apply in_map_iff. exists q. tauto.
+Qed.
+
+Section Top.
+Context (ord : oracle) (g : graph) (Hord : ord_ok ord) (Hwf : wf g) (Hcl : closed g) (Hac : ~ has_cycle g).
+Notation E := (edge g).
+
+Lemma loop_top (R : N -> Prop) (HR : forall a b, R a -> E a b -> R b) ps e st' :
+  wp_loop ord (wp ord g (wp_fuel g)) ps ([], []) false = Some (e, st') ->
+  incl ps g -> (forall p, In p ps -> R (key p)) ->
+  e = false /\ NoDup (keys (snd st')) /\ ordered [] (snd st') /\ incl (snd st') g /\
+  (forall p, In p (snd st') -> R (key p)) /\ (forall p, In p ps -> In (key p) (keys (snd st'))).
+Proof.
+  intros H Hps HRps.
+  destruct (wp_loop_spec ord g Hord Hcl Hac R HR (wp_fuel g)
+              (wp_spec ord g Hord Hcl Hac R HR (wp_fuel g)) ps [] [] false e st' H Hps) as [He [Hpost Hall]]; auto.
+  - unfold W. cbn. split; [intros x []|]. split; [constructor|]. split; auto. split; intros x [].
+  - intros x [[] _].
+  - destruct Hpost as [[W1 [W2 [W3 [W4 W5]]]] _]. auto 10.
+Qed.
+
+Lemma ordered_closed post a b : ordered [] post -> incl post g ->
+  In a (keys post) -> E a b -> In b (keys post).
+Proof.
+  intros Ho Hi Ha [q [Hq [Hk Hb]]]. apply in_map_iff in Ha. destruct Ha as [pa [Hpk Hpa]].
+  assert (q = pa) by (eapply wf_unique; eauto; congruence). subst q.
+  destruct (in_split _ _ Hpa) as [l1 [l2 Hs]]. rewrite Hs in Ho.
+  destruct (ordered_split _ _ _ _ Ho b Hb) as [[]|X]. rewrite Hs, keys_app. apply in_or_app. now left.
+Qed.
+
+Lemma post_order_all : exists post, post_order ord g (wp_fuel g) [] = Some (false, post) /\
+  NoDup (keys post) /\ ordered [] post /\ incl post g /\ (forall p, In p g -> In p post).
+Proof.
+  destruct (post_order_term ord g Hord []) as [e [post [H Hi]]]. pose proof H as H0.
+  unfold post_order in H.
+  destruct (wp_loop ord (wp ord g (wp_fuel g)) (ord SRoots proc g) ([], []) false) as [[e' st']|] eqn:El; [|discriminate].
+  cbn in H. injection H as <- <-.
+  destruct (loop_top (fun _ => True) (fun _ _ _ _ => I) _ _ _ El) as [He [H1 [H2 [H3 [_ H5]]]]]; auto.
+  { intros x Hx. now apply Hord in Hx. }
+  subst e'. exists (snd st'). split; auto. split; auto. split; auto. split; auto.
+  intros p Hp. assert (Hk : In (key p) (keys (snd st'))) by (apply H5; now apply Hord).
+  apply in_map_iff in Hk. destruct Hk as [p' [Hk Hp']].
+  assert (p' = p) by (apply (wf_unique g); auto; apply H3; auto). now subst.
+Qed.
+
+Lemma post_order_sel r0 rr ps : get_procs ord g 0%N (r0 :: rr) = Some ps ->
+  exists post, post_order ord g (wp_fuel g) (r0 :: rr) = Some (false, post) /\
+  NoDup (keys post) /\ ordered [] post /\ incl post g /\
+  (forall k, In k (keys post) <-> exists r, In r ps /\ path E (key r) k).
+Proof.
+  intros Hg.
+  destruct (post_order_term ord g Hord (r0 :: rr)) as [e [post [H Hi]]]. pose proof H as H0.
+  unfold post_order in H. cbn [wp] in H. rewrite Hg in H.
+  destruct (wp_loop ord (wp ord g (wp_fuel g)) ps ([], []) false) as [[e' st']|] eqn:El; [|discriminate].
+  cbn in H. injection H as <- <-.
+  destruct (loop_top (fun k => exists r, In r ps /\ path E (key r) k)) with (ps := ps) (e := e') (st' := st')
+    as [He [H1 [H2 [H3 [H4 H5]]]]]; auto.
+  { intros a b [r [Hr Hp]] He. exists r. split; auto. eapply path_snoc; eauto. }
+  { eapply get_procs_incl; eauto. }
+  { intros p Hp. exists p. split; auto. constructor. }
+  subst e'. exists (snd st'). split; auto. split; auto. split; auto. split; auto.
+  intros k. split.
+  - intros Hk. apply in_map_iff in Hk. destruct Hk as [p [<- Hp]]. now apply H4.
+  - intros [r [Hr Hp]]. assert (Hk : In (key r) (keys (snd st'))) by now apply H5.
+    clear Hr. induction Hp; auto. apply IHHp. eapply ordered_closed; eauto.
+Qed.
+
+Lemma post_order_sel_err r0 rr : get_procs ord g 0%N (r0 :: rr) = None ->
+  post_order ord g (wp_fuel g) (r0 :: rr) = Some (true, []).
+Proof. intros Hg. unfold post_order. cbn [wp]. rewrite Hg. reflexivity. Qed.
+
+(* GetDependenciesOrderNames: every process that is to run, exactly once, after its dependencies *)
+Theorem order_ok : exists o, dep_order ord g (wp_fuel g) = Some (false, o) /\
+  NoDup o /\
+  (forall k, In k o <-> exists p, In p g /\ key p = k /\ deferred p = false) /\
+  (forall p q, In p g -> In q g -> In (key q) (deps p) -> deferred p = false -> deferred q = false ->
+               precedes o (key q) (key p)).
+Proof.
+  destruct post_order_all as [post [H [H1 [H2 [H3 H4]]]]].
+  exists (keys (filter (fun p => negb (deferred p)) post)). unfold dep_order. rewrite H. cbn.
+  split; auto. split; [now apply NoDup_map_filter|]. split.
+  - intros k. split.
+    + intros Hk. apply in_map_iff in Hk. destruct Hk as [p [Hk Hp]]. apply filter_In in Hp.
+      destruct Hp as [Hp Hd]. apply negb_true_iff in Hd. exists p. auto.
+    + intros [p [Hp [Hk Hd]]]. apply in_map_iff. exists p. split; auto. apply filter_In.
+      split; auto. now rewrite Hd.
+  - intros p q Hp Hq Hdep Hdp Hdq.
+    destruct (in_split _ _ (H4 p Hp)) as [l1 [l2 Hs]].
+    assert (Hq1 : In q l1).
+    { rewrite Hs in H2. destruct (ordered_split _ _ _ _ H2 _ Hdep) as [[]|X].
+      apply in_map_iff in X. destruct X as [q' [Hk Hq']].
+      assert (q' = q); [|now subst]. apply (wf_unique g); auto. apply H3. rewrite Hs. apply in_or_app. now left. }
+    exists (keys (filter (fun p => negb (deferred p)) l1)), (keys (filter (fun p => negb (deferred p)) l2)).
+    split.
+    + rewrite Hs, filter_app. cbn [filter]. rewrite Hdp. cbn [negb]. now rewrite keys_app.
+    + apply in_map. apply filter_In. split; auto. now rewrite Hdq.
+Qed.
+
+(* selectRunningProcesses: requested processes plus the transitive closure of their dependencies,
+   minus foreground ones, are enabled; every other process is disabled *)
+Theorem select_closure r0 rr ps : get_procs ord g 0%N (r0 :: rr) = Some ps ->
+  exists sel, select ord (wp_fuel g) g (r0 :: rr) = Ok (map (fun p => set_dis (negb (mem (key p) sel)) p) g) /\
+    forall k, In k sel <-> exists p, In p g /\ key p = k /\ fg p = false /\
+                                     exists r, In r ps /\ path E (key r) k.
+Proof.
+  intros Hg. destruct (post_order_sel r0 rr ps Hg) as [post [H [H1 [H2 [H3 H4]]]]].
+  exists (keys (filter (fun p => negb (fg p)) post)). unfold select. rewrite H. split; auto.
+  intros k. split.
+  - intros Hk. apply in_map_iff in Hk. destruct Hk as [p [Hk Hp]]. apply filter_In in Hp.
+    destruct Hp as [Hp Hf]. apply negb_true_iff in Hf. exists p. repeat split; auto.
+    apply H4. rewrite <- Hk. now apply in_map.
+  - intros [p [Hp [Hk [Hf Hr]]]]. apply H4 in Hr. apply in_map_iff in Hr. destruct Hr as [p' [Hk' Hp']].
+    assert (p' = p) by (apply (wf_unique g); auto; try congruence; apply H3; auto). subst p'.
+    apply in_map_iff. exists p. split; auto. apply filter_In. split; auto. now rewrite Hf.
+Qed.
+
+Theorem select_unknown r0 rr : get_procs ord g 0%N (r0 :: rr) = None ->
+  select ord (wp_fuel g) g (r0 :: rr) = Err.
+Proof. intros Hg. unfold select. now rewrite post_order_sel_err. Qed.
+
+End Top.
